@@ -269,12 +269,14 @@ func (a *AnySchema) checkAndConvert(data any) (any, error) {
 		return result, nil
 	case reflect.Map:
 		result := make(map[any]any, t.Len())
-		for _, k := range t.MapKeys() {
+		mapIterator := t.MapRange()
+		for mapIterator.Next() {
+			k := mapIterator.Key()
 			key, err := a.checkAndConvert(k.Interface())
 			if err != nil {
 				return nil, ConstraintErrorAddPathSegment(err, fmt.Sprintf("{%v}", k))
 			}
-			v := t.MapIndex(k)
+			v := mapIterator.Value()
 			value, err := a.checkAndConvert(v.Interface())
 			if err != nil {
 				return nil, ConstraintErrorAddPathSegment(err, fmt.Sprintf("[%v]", key))
